@@ -13,6 +13,8 @@ import (
 // checkers maps a property id to its rule set.
 var checkers = map[string]func(r *Report){
 	"C05": checkC05,
+	"C06": checkC06,
+	"C07": checkC07,
 	"C17": checkC17,
 }
 
